@@ -15,7 +15,7 @@ func c17Shapes(quick bool) []Shape {
 	var sh []Shape
 	maxOps := 2
 	if !quick {
-		maxOps = 4
+		maxOps = 3
 	}
 	mk := func(name string, paths []string, inFunc bool) Shape {
 		return Shape{Name: name, Prog: func(c *gosym.Ctx) *Program {
@@ -102,7 +102,7 @@ func c17Shapes(quick bool) []Shape {
 
 func CheckC17(r *Run) int {
 	return checkShapes(r, c17Shapes(r.Tier == "quick"), eqOpts{Target: "bash", CheckHazards: true, CompareFiles: true, ByCharClass: true}, 20000,
-		"histories of 1..2 (quick) / 1..4 (thorough) operations write/append/read/exists over two paths, top level and inside a function; first content = 1..2 symbolic bytes over printable ASCII + newline/tab, second content one neutral byte; the resulting file system and the printed reads are compared with a line-store model",
+		"histories of 1..2 (quick) / 1..3 (thorough) operations write/append/read/exists over two paths, top level and inside a function; first content = 1..2 symbolic bytes over printable ASCII + newline/tab, second content one neutral byte; the resulting file system and the printed reads are compared with a line-store model",
 		"paths are concrete spellings (a.txt, b.txt, 'my file.txt'); read of a missing file is excluded")
 }
 
